@@ -10,7 +10,7 @@ CONSTANT RecordEdges
 Kinds3Q   == {<<"fd", "fd", "fd">>, <<"tm", "tm", "tm">>, <<"fd", "tm", "fd">>, <<"tm", "fd", "tm">>}
 Kinds3All == [1..3 -> {"fd", "tm"}]
 Kinds4All == [1..4 -> {"fd", "tm"}]
-Kinds2All == [1..2 -> {"fd", "tm"}]
+Kinds5All == [1..5 -> {"fd", "tm"}]
 KindsFd3  == {<<"fd", "fd", "fd">>}
 BothInits == {"from", "default"}
 FromOnly  == {"from"}
@@ -21,7 +21,7 @@ KnownO9 == {"child_unregistered_twice_after_disable", "removed_child_unregistere
             "replaced_child_unregistered_twice"}
 
 Abs == [st |-> st, cur |-> cur, old |-> old, reg |-> reg, dropped |-> dropped, kind |-> kind,
-        preg |-> preg, pend |-> pend, fresh |-> fresh]
+        preg |-> preg, pend |-> pend, upend |-> upend, fresh |-> fresh]
 
 InitP == Init /\ (RecordEdges => PrintT(<<"INIT", ToJson(Abs)>>))
 SpecP == InitP /\ [][Next]_vars
